@@ -5,6 +5,7 @@ import (
 	"encoding/hex"
 	"fmt"
 	"log"
+	"sync"
 	"time"
 
 	"github.com/smartcontractkit/chainlink-common/pkg/services"
@@ -31,6 +32,10 @@ type coordinator struct {
 
 	cache   *util.Cache[record]
 	visited *util.Cache[bool]
+	// mu makes the read-modify-write of a cache record atomic between Accept and
+	// the event poller (checkEvents); each of them reads a record and then writes
+	// a value derived from what it read
+	mu sync.Mutex
 
 	minimumConfirmations int
 	performLockoutWindow time.Duration
@@ -61,6 +66,9 @@ func NewCoordinator(transmitEventProvider types.TransmitEventProvider, upkeepTyp
 }
 
 func (c *coordinator) Accept(reportedUpkeep common.ReportedUpkeep) bool {
+	c.mu.Lock()
+	defer c.mu.Unlock()
+
 	if v, ok := c.cache.Get(reportedUpkeep.WorkID); !ok {
 		c.cache.Set(reportedUpkeep.WorkID, record{
 			checkBlockNumber:      reportedUpkeep.Trigger.BlockNumber,
@@ -185,8 +193,10 @@ func (c *coordinator) checkEvents(ctx context.Context) error {
 			continue
 		}
 
+		c.mu.Lock()
 		v, ok := c.cache.Get(event.WorkID)
 		if !ok {
+			c.mu.Unlock()
 			c.logger.Printf("Ignoring event in transaction %s of type %d for upkeepID %s, workID %s as it was not found in cache", hex.EncodeToString(event.TransactionHash[:]), event.Type, event.UpkeepID.String(), event.WorkID)
 			continue
 		}
@@ -206,6 +216,7 @@ func (c *coordinator) checkEvents(ctx context.Context) error {
 			c.cache.Set(event.WorkID, r, util.DefaultCacheExpiration)
 		}
 		// otherwise this is an old event, ignore it
+		c.mu.Unlock()
 	}
 	c.logger.Printf("Skipped %d events as confirmations are less than minimum confirmations (%d)", skipped, c.minimumConfirmations)
 
